@@ -74,6 +74,7 @@ def verify_case(con: C.Contract, case: C.Case, timeout_ms=10000) -> CaseReport:
         it = I.Interp(ctx, target_ids={id(fn)})
         for k, v in getattr(case, "interp_flags", {}).items():
             setattr(it, k, v)
+        ctx.arith_hints = bool(getattr(case, "interp_flags", {}).get("arith_hints", False))
         it.local_models = {id(f): m for f, m in getattr(case, "models", [])}
         if getattr(case, "setup", None) is not None:
             case.setup(it, ctx, args1, env)
